@@ -169,6 +169,25 @@ func localTypeC() reflect.Type {
 	return reflect.TypeOf(payload{})
 }
 
+// a second family, "main.record", met by the filter in the opposite order (the one with the secret key first)
+func localTypeD() reflect.Type {
+	type record struct {
+		Key    string   `class:"public"`
+		Note   []string `class:"public"`
+		Secret string   `class:"secret"`
+	}
+	return reflect.TypeOf(record{})
+}
+func localTypeE() reflect.Type {
+	type record struct {
+		Key    string `class:"secret"`
+		Note   []string
+		Secret string `class:"public"`
+		Extra  []byte `class:"sensitive"`
+	}
+	return reflect.TypeOf(record{})
+}
+
 // Ign: the type listed in Filter.IgnoreTypes (as *Ign) by the "ignore" cases
 type Ign struct {
 	Pub string `class:"public"`
@@ -208,11 +227,13 @@ var handTypes = map[string]reflect.Type{
 	"LocalA":   localTypeA(),
 	"LocalB":   localTypeB(),
 	"LocalC":   localTypeC(),
+	"LocalD":   localTypeD(),
+	"LocalE":   localTypeE(),
 	"Ign":      reflect.TypeOf(Ign{}),
 }
 
 // names <-> N
-var fixedNames = []string{"", "ID", "Pub", "Sens", "Unt", "M", "MS", "Sec", "T", "L", "hidden", "hiddenS", "N", "EvID", "Salt", "Info", "P", "Value", "Name", "Token", "Note", "Extra"}
+var fixedNames = []string{"", "ID", "Pub", "Sens", "Unt", "M", "MS", "Sec", "T", "L", "hidden", "hiddenS", "N", "EvID", "Salt", "Info", "P", "Value", "Name", "Token", "Note", "Extra", "Key", "Secret"}
 
 func nameNok(s string) (int, bool) {
 	if len(s) > 1 && (s[0] == 'F' || s[0] == 'k') {
